@@ -295,7 +295,9 @@ def run_engine(engine, prop, argv=None):
             continue
         if "crashed" in res:
             status = res["crashed"]
-            timed_out = os.WIFSIGNALED(status) and os.WTERMSIG(status) == signal.SIGALRM  # watchdog
+            # SIGALRM = our watchdog; SIGKILL = the kernel's out-of-memory killer (or an operator):
+            # neither says anything about the code under test by itself
+            timed_out = os.WIFSIGNALED(status) and os.WTERMSIG(status) in (signal.SIGALRM, signal.SIGKILL)
             if timed_out:
                 # a watchdog kill may just be a slow machine: run the case once more, alone, with
                 # three times the allowance, before anything is concluded from it
@@ -319,7 +321,7 @@ def run_engine(engine, prop, argv=None):
             h = getattr(engine, "on_crash", None)
             v = h(spec, status) if h else None
             if v is None:
-                harness_errors.append("worker died (status %s%s) on case %s" % (status, ", watchdog timeout twice" if timed_out else "", json.dumps(spec)[:300]))
+                harness_errors.append("worker died (status %s%s) on case %s" % (status, ", killed twice (watchdog / out of memory)" if timed_out else "", json.dumps(spec)[:300]))
             else:
                 viols.append(v)
             continue
